@@ -14,7 +14,7 @@ import conv, gen, spec
 META = dict(
     level='proof',
     rule='one case = (sample split over demes, deme names, model, state space kind, two epochs of algebraically '
-         'generic rates); exhaustive over the bound of the property in both tiers (n<=5 x <=3 demes x 3 models x 2 spaces; two loci n<=4 x <=2 '
+         'generic rates, plus for >= 2 demes a third epoch differing in ONE directed migration rate and a fourth differing in ONE size, all walked on one state-space object); exhaustive over the bound of the property in both tiers (n<=5 x <=3 demes x 3 models x 2 spaces; two loci n<=4 x <=2 '
          'demes x n_unlinked in {0,1,n}); non-trivial = at least 3 states',
     exhaustive_thorough=True,
     exhaustive_quick=True,
@@ -60,6 +60,17 @@ def build_cfg(c, rng):
     else:
         model = ('dirac', rng.choice([0.25, 0.5, 0.75]), rng.choice([0.5, 3.0]), rng.random() < 0.5)
     eps = gen.rand_epochs(rng, names, 2, generic=True)
+    if D >= 2:
+        # a third epoch that differs from the second in exactly ONE directed migration rate (either direction) and a fourth that
+        # differs from the third in exactly one population size: the rate matrix of an epoch depends on every field of the epoch
+        import copy
+        e3 = copy.deepcopy(eps[1]); e3['start'] = eps[1]['start'] + 0.5
+        a, b = rng.sample(names, 2)
+        e3['mig'][(a, b)] = e3['mig'][(a, b)] + gen.generic_rate(rng, set())
+        e4 = copy.deepcopy(e3); e4['start'] = e3['start'] + 0.5
+        p = rng.choice(names)
+        e4['sizes'][p] = e4['sizes'][p] + gen.generic_rate(rng, set())
+        eps = eps + [e3, e4]
     cfg = dict(n=dict(zip(names, c['vec'])), model=model, epochs=eps, loci=c['loci'])
     if c['loci'] == 2:
         cfg['r'] = gen.generic_rate(rng, set())
